@@ -40,6 +40,14 @@ impl StorageData for AnyStorage {
         }
     }
 
+    fn rollback(&mut self) -> Result<bool, DbError> {
+        match self {
+            AnyStorage::MemoryMapped(s) => s.rollback(),
+            AnyStorage::Memory(s) => s.rollback(),
+            AnyStorage::File(s) => s.rollback(),
+        }
+    }
+
     fn len(&self) -> u64 {
         match self {
             AnyStorage::MemoryMapped(s) => s.len(),
